@@ -28,6 +28,7 @@ THEOREMS = [
     "offdiag_never_altered_M",
     "offdiag_never_altered_HB",
     "no_offdiag_created",
+    "sweep_leaves_tail_untouched",
     "sweep_uses_current_n",
     "sweep_final_count",
     "weight_step",
@@ -37,11 +38,13 @@ THEOREMS = [
 RULE = ("random table Hamiltonians (1-4 variables, 1-5 bonds on 1-4 variables (3-/4-variable diagonal terms with the unique maximum at a uniformly chosen sub-state index), constant flags, diagonal weights from "
         "{0,1/8,...,6} incl. all-zero bonds), beta in {1/8..4}, cutoff 1..10 (container sometimes shorter than the cutoff), "
         "random operator strings with diagonal and off-diagonal ops whose inputs follow the propagated state; "
+        "in a fifth of the trait-level cases the container is LONGER than the sweep cutoff (pre-grown with set_cutoff after the install, or with operators in the tail as after a longer earlier sweep; tail-operator cases that run out of L-n are skipped); "
         "traj: one real sweep (Metropolis / heat-bath with the real or an inflated table) under a recorded RNG, replayed by the model; "
         "prob: threshold bisection of the bond/attempt/acceptance/removal words of a random empty slot k inside a sweep, "
         "compared with the model's rationals and (oracle, real code only) p_insert/p_remove against beta*w/(L-n) with the n current at slot k. "
         "generic: Qmc with set_do_heatbath(true) that has already swept (lazy table built) gets a further interaction (3/4 of them with an all-equal diagonal: constant term, equal-diagonal full matrix, constant diagonal constructor), then diagonal_update trajectories replayed with the table of the CURRENT interactions (gsweep) and the insert/remove probabilities of the NEW bond bisected (gprob); "
         "converted: Ising samplers run hot then cold (sparse long string; 1/6 converted before any step; 1/4 frustrated) and converted with into_qmc: first sweep must use the Ising cutoff at conversion, trajectories (msweep/gsweep), heat-bath bisection, and a drain step at beta = 1e-12 after which no operator with inputs == outputs may remain anywhere in the string; ising_field: QmcIsingGraph with h of either sign and set_enable_heatbath(true): sweeps replayed with the table of the full Hamiltonian, FIELD bonds bisected on favoured spins (weight 2|h|) and shown never inserted on unfavoured spins (gzero); "
+        "in half of the ising_field cases (heat-bath 3/4, default 1/4) the manager is grown by hand (get_manager_mut().set_cutoff(len + 1..40)) before the examined step; constant_terms: Qmc with >= 2 constant single-site terms of different weights (weight 0 in 1/4) registered in random order: Metropolis bisection on a fresh sampler in the unclipped regime (mprob through diagonal_update; other bonds evaluated at slots 0..k first), heat-bath bisection with an earlier insertion of another constant bond in the same sweep, gzero for weight-0 constant bonds, trajectories of both variants; "
         "Non-trivial = the sweep visits at least one slot that is empty or holds an op; distinct = distinct input line.")
 
 
